@@ -187,14 +187,14 @@ const c05Ops = 17 // U(s0..s7), P(s0..s7), Reset
 
 func c05NumPools(tier string) int {
 	if tier == "thorough" {
-		return 300
+		return 120
 	}
 	return 8
 }
 
 func c05NumGen(tier string) int {
 	if tier == "thorough" {
-		return 12000
+		return 4000
 	}
 	return 500
 }
@@ -886,7 +886,7 @@ func emptyBattery(st *trie.SlimTrie, qs []string) string {
 
 func c07NumCases(tier string) int {
 	if tier == "thorough" {
-		return 10000
+		return 4000
 	}
 	return 500
 }
@@ -1214,7 +1214,7 @@ func runC07(ctx *Ctx, idx int) {
 
 func c20NumCases(tier string) int {
 	if tier == "thorough" {
-		return 40000
+		return 12000
 	}
 	return 600
 }
